@@ -324,7 +324,7 @@ func c17sig(t *tmpl, hp, bp, tp []*pop, got, exp, expNoTrl []field) string {
 		for _, l := range ls {
 			found := false
 			for _, g := range got {
-				if g.Tag == l.n.Tag && g.Val == l.p.Val {
+				if g.Tag == l.n.Tag && g.Val == wireText(l.p.Val) {
 					found = true
 				}
 			}
